@@ -1,6 +1,7 @@
 # C07: generator and oracle for the in-memory TextArchive API.
 import itertools
 from common import PropertyCheck, Case
+import c06   # histories observed through serialize -> from_bytes (kind txth, the C06/C07 link)
 
 BS, LN, NL, X = 92, 110, 10, 120
 
@@ -147,9 +148,28 @@ class C07(PropertyCheck):
                 else:
                     h.append(("T", tuple(rng.choice((65, 66, 0x3042)) for _ in range(rng.randint(0, 4)))))
             cases.append(Case(render(h), "random-history"))
+        # "serialized order" (observe_at of the property): after a history, serialize -> from_bytes must list exactly the surviving
+        # keys in order of first insertion with the last value set - also when several keys hold the SAME text (seeded change C07-3
+        # pooled equal messages in serialize and lost the later key); few distinct messages on purpose
+        pool = [[], [97], [0x5C, 0x6E], [97, 98], [0x0A]]
+        for _ in range(150 if tier == "quick" else 1500):
+            f = "U" if rng.random() < 0.7 else "S"
+            ks = rng.sample(c06.H_KEYS, rng.choice([2, 3, 5]))
+            ops = []
+            for _ in range(rng.randint(2, 12)):
+                r, k = rng.random(), rng.choice(ks)
+                if r < 0.6:
+                    ops.append(("S", k, rng.choice(pool)))
+                elif r < 0.85:
+                    ops.append(("D", k))
+                else:
+                    ops.append(("T", [84]))
+            cases.append(Case(c06.render_hist(f, rng.choice("LB"), ops), "serialized-order"))
         return cases
 
     def nontrivial(self, case, impl_out):
+        if case.line.startswith("txth "):
+            return len(c06.hist_expected(c06.parse_hist(case.line)[2])[1]) >= 2
         ops = parse_ops(case.line)
         alive = set()
         for o in ops:
@@ -164,12 +184,17 @@ class C07(PropertyCheck):
         return False
 
     def oracle(self, case, impl_out, profile):
+        if case.line.startswith("txth "):
+            return c06.C06().oracle_history(case, impl_out)
         want = spec_run(parse_ops(case.line))
         if impl_out != want:
             return "implementation state differs from the insertion-ordered-map specification: want %r got %r" % (want[:300], impl_out[:300])
         return None
 
     def shrink_candidates(self, case):
+        if case.line.startswith("txth "):
+            yield from c06.C06().shrink_candidates(case)
+            return
         ops = parse_ops(case.line)
         for i in range(len(ops)):
             yield Case(render(ops[:i] + ops[i + 1:]), case.stream)
